@@ -52,3 +52,45 @@ harness!(poke_integer, 18, {
     std::mem::forget(other);
     std::mem::forget(v);
 });
+
+// C08 -- "never ends in an internal failure such as a panic": PEEK / POKE reach a variable of ANY scalar type through
+// VARPTR / VARSEG (the checker puts no restriction on the variable), so the byte view must be total on every scalar kind:
+// a BASIC-level outcome (the byte, or an error the program can trap), never a panic.  One harness per concrete kind.
+//# harness peek_poke_long_total tier=quick label=complete props=C08 fn=rusty_basic/src/interpreter/context.rs::PeekByte::peek_byte
+harness!(peek_poke_long_total, 18, {
+    let mut v = Variant::VLong(vs::i32() as i64);
+    let address = vs::usize();
+    vs::assume(address < 4);
+    let r = v.peek_byte(address);
+    let w = v.poke_byte(address, vs::u8());
+    reach!(address == 3);
+    std::mem::forget(r);
+    std::mem::forget(w);
+    std::mem::forget(v);
+});
+
+//# harness peek_poke_single_total tier=quick label=complete props=C08 fn=rusty_basic/src/interpreter/context.rs::PeekByte::peek_byte
+harness!(peek_poke_single_total, 18, {
+    let mut v = Variant::VSingle(vs::f32());
+    let address = vs::usize();
+    vs::assume(address < 4);
+    let r = v.peek_byte(address);
+    let w = v.poke_byte(address, vs::u8());
+    reach!(address == 0);
+    std::mem::forget(r);
+    std::mem::forget(w);
+    std::mem::forget(v);
+});
+
+//# harness peek_poke_double_total tier=quick label=complete props=C08 fn=rusty_basic/src/interpreter/context.rs::PeekByte::peek_byte
+harness!(peek_poke_double_total, 18, {
+    let mut v = Variant::VDouble(vs::f64());
+    let address = vs::usize();
+    vs::assume(address < 8);
+    let r = v.peek_byte(address);
+    let w = v.poke_byte(address, vs::u8());
+    reach!(address == 7);
+    std::mem::forget(r);
+    std::mem::forget(w);
+    std::mem::forget(v);
+});
